@@ -81,14 +81,16 @@ def fallbackOK (n : Node) (skip : List Nat) (fb : List Nat) : Bool :=
   decide (fb.length ≤ 2 * forwardLimit) &&
   fb.all (fun x => !(skip.contains x) && n.groups.any (fun ge => ge.g.connected.contains x))
 
-/-- `Service.Multicast(info, skip...)`; `fb` is the oracle for `getForwardNodes`. -/
-def multicast (n : Node) (m : Msg) (skip : List Nat) (fb : List Nat) : Out :=
-  let nm : Node × Msg :=
-    if m.origin = none then
-      ({ n with seq := n.seq + 1 }, { m with origin := some n.self, id := n.seq + 1 })
-    else (n, m)
-  let n1 := nm.1
-  let m1 := nm.2
+/-- first lines of `Multicast`: an empty origin is stamped with `self` and `msgSeq+1`
+    (`atomic.AddUint64(&s.msgSeq, 1)` happens before the de-duplication check). -/
+def stamp (n : Node) (m : Msg) : Node × Msg :=
+  if m.origin = none then
+    ({ n with seq := n.seq + 1 }, { m with origin := some n.self, id := n.seq + 1 })
+  else (n, m)
+
+/-- `Multicast` after stamping: `Multicast_` de-duplication, then `Group.multicast` or, without a
+    group object, the `getForwardNodes` oracle `fb`. -/
+def multicastCore (n1 : Node) (m1 : Msg) (skip : List Nat) (fb : List Nat) : Out :=
   if m1.key ∈ n1.seenMc then
     { node := n1, sends := [], notified := false, forwarded := false, key := m1.key }
   else
@@ -100,6 +102,10 @@ def multicast (n : Node) (m : Msg) (skip : List Nat) (fb : List Nat) : Out :=
     | none =>
       { node := n2, sends := fb.map (fun p => (p, m1)),
         notified := false, forwarded := true, key := m1.key }
+
+/-- `Service.Multicast(info, skip...)`; `fb` is the oracle for `getForwardNodes`. -/
+def multicast (n : Node) (m : Msg) (skip : List Nat) (fb : List Nat) : Out :=
+  multicastCore (stamp n m).1 (stamp n m).2 skip fb
 
 /-- `Service.onMulticast` for a message `m` read from a stream of peer `from`. -/
 def onMulticast (n : Node) (m : Msg) (frm : Nat) (fb : List Nat) : Out :=
@@ -145,7 +151,7 @@ structure Net where
   nodes    : List Node
   inflight : List Packet
   trace    : List Event := []
-deriving Repr
+deriving Repr, DecidableEq
 
 def outEvents (i : Nat) (inKey : Key) (o : Out) : List Event :=
   (if o.notified then [Event.notified i inKey] else []) ++
